@@ -167,6 +167,8 @@ pub(crate) fn rewrite_macro(
     } else {
         let guard = context.enter_macro();
         let result = catch_unwind(AssertUnwindSafe(|| {
+            #[cfg(rustfmt_verif)]
+            crate::verif_hooks::fault_point("rewrite_macro", context.snippet(mac.path.span));
             rewrite_macro_inner(mac, context, shape, position, guard.is_nested())
         }));
         match result {
